@@ -12,6 +12,9 @@ import sys
 import time
 import traceback
 import zlib
+import warnings
+
+warnings.filterwarnings("ignore")
 
 ROOT = os.path.dirname(os.path.dirname(os.path.dirname(os.path.abspath(__file__))))  # /verif
 MAX_ROUNDS = 8
